@@ -621,6 +621,52 @@ pub fn replay_path_history(case: &Value, run: &Run) -> Acc {
     acc
 }
 
+/// size ladder: wide arrays and objects around powers of two (where an implementation may switch strategy), with
+/// queries whose parameters are derived from the size, against the reference model
+fn size_ladder(run: &Run, thorough: bool, mode: crate::checks::common::Mode) -> Acc {
+    use crate::checks::common::{check_case, DocCtx, Outcome};
+    let mut sizes: Vec<usize> = vec![15, 16, 17, 31, 32, 33, 63, 64, 65, 127, 128, 129, 255, 256, 257];
+    if thorough {
+        sizes.extend([511, 512, 513, 1000, 1023, 1024, 1025, 4096, 4097]);
+    }
+    sizes
+        .par_iter()
+        .map(|&n| {
+            let mut acc = Acc::new();
+            let ints = Value::Array((0..n).map(|i| json!(i % 7)).collect());
+            let objs = Value::Array((0..n).map(|i| json!({"a": i % 3, "b": [i, i % 2]})).collect());
+            let wide: Value = Value::Object((0..n).map(|i| (format!("k{}", i), if i % 5 == 0 { json!([i]) } else { json!(i % 4) })).collect());
+            let h = n / 2;
+            let arr_q = vec![
+                "$[*]".to_string(), format!("$[{}]", n - 1), format!("$[-{}]", n), format!("$[{}]", n), format!("$[-{}]", n + 1), "$[::2]".into(), "$[::-1]".into(), format!("$[{}:]", h), format!("$[:{}:3]", h),
+                "$[-3:]".into(), format!("$[{}:{}:-2]", n, h), format!("$[0,{},-1]", n - 1), format!("$[{}:{}]", n - 1, n + 5), "$[?@>3]".into(), "$[?@==0]".into(), "$..*".into(),
+                format!("$[?length($)=={}]", n), format!("$[?count($[*])=={}]", n), format!("$[?count($[?@==0])>{}]", n / 8), format!("$[?$[{}]==@]", n - 1), format!("$[?$[-{}]==@]", n),
+            ];
+            let obj_q = vec![
+                "$[*].a".to_string(), "$[?@.a==1].b[0]".into(), "$..b[0]".into(), format!("$[?@.b[0]>{}]", h), format!("$[{}].b[-1]", n - 1), "$[::-3].a".into(), format!("$[?@.b[0]=={}]", n - 1), "$[*]['a','b']".into(),
+                format!("$[?count($[?@.a==1])>{}]", n / 4), "$..[?@.a==2].b".into(),
+            ];
+            let wide_q = vec![
+                "$[*]".to_string(), "$.*".into(), format!("$.k{}", n - 1), format!("$['k0','k{}']", n - 1), format!("$.k{}", n), "$..[0]".into(), "$[?@>2]".into(), "$[?@[0]]".into(), format!("$[?count($.*)=={}]", n),
+                format!("$[?length($)=={}]", n), format!("$..['k{}','k1']", h), "$..*".into(),
+            ];
+            for (doc, qs) in [(&ints, &arr_q), (&objs, &obj_q), (&wide, &wide_q)] {
+                let dc = DocCtx::new(doc);
+                for q in qs {
+                    let ast = crate::model::parse::rfc_parse(q).unwrap_or_else(|e| panic!("size-ladder query {} must be valid: {:?}", q, e)).0;
+                    acc.transitions += 1;
+                    if let Outcome::Agree(k) = check_case(run, &mut acc, q, &ast, &dc, mode, "size ladder") {
+                        if k > 0 {
+                            acc.nontrivial += 1;
+                        }
+                    }
+                }
+            }
+            acc
+        })
+        .reduce(Acc::new, Acc::merge)
+}
+
 pub fn run(prop: &str, tier: &str) -> i32 {
     let run = Run::new(prop, tier);
     let check: fn(&Edge, &Run, &mut Acc) = match prop {
@@ -658,9 +704,18 @@ pub fn run(prop: &str, tier: &str) -> i32 {
         let t0 = std::time::Instant::now();
         let mut docs = docs::panel();
         docs.extend(docs::names_universe(false));
-        let mode = if prop == "C03" { crate::checks::common::Mode::NodesAndPaths } else { crate::checks::common::Mode::Nodes };
+        let mode = match prop {
+            "C03" => crate::checks::common::Mode::NodesAndPaths,
+            "C01" => crate::checks::common::Mode::Multiset,
+            _ => crate::checks::common::Mode::Nodes,
+        };
         let acc = crate::checks::lifted::lifted(&run, &docs, if run.thorough() { 5 } else { 3 }, mode);
         labels.push(format!("construct x context matrix: {} documents, {} (selector, context) queries, {} evaluations, {:.1}s", docs.len(), acc.transitions, acc.evals, t0.elapsed().as_secs_f64()));
+        eprintln!("  {}", labels.last().unwrap());
+        total = total.merge(acc);
+        let t0 = std::time::Instant::now();
+        let acc = size_ladder(&run, run.thorough(), mode);
+        labels.push(format!("size ladder (arrays / objects of 15..257 (thorough ..4097) children, size-derived queries): {} queries, {:.1}s", acc.transitions, t0.elapsed().as_secs_f64()));
         eprintln!("  {}", labels.last().unwrap());
         total = total.merge(acc);
     }
